@@ -166,40 +166,78 @@ func checkC18(c *core.Ctx, r *core.Report) {
 			}
 			r.Check(okLen, "GUARD", name+":length-bounded-by-buffer", c.Pos(dataRead.Pos()), "the data read is dominated by the rejection of length > len(buf)", "the on-disk chunk length is not checked against the caller's buffer before reading")
 		}
-		// legacy raw read only when the file's first word is not the magic
-		nLegacy := 0
-		for _, ci := range core.CallsIn(readChunk) {
-			call, ok := ci.(*ssa.Call)
-			if !ok || !core.IsCallTo(call, osReadAt) || !mismatchSucc.Dominates(call.Block()) {
-				continue
-			}
-			nLegacy++
-			guarded := false
-			for _, li := range legacyIfs {
-				bo := li.Cond.(*ssa.BinOp)
-				ne := li.Block().Succs[1]
-				if bo.Op == token.NEQ {
-					ne = li.Block().Succs[0]
+		// legacy raw read only when the file's first word is not the magic; nothing but the legacy read returns
+		// data on the mismatch edge.  The region is the mismatch successor in readChunkAt, or the whole body of a
+		// helper whose result that region returns (the fallback extracted into a method of its own).
+		var legacyRegion func(fn *ssa.Function, root *ssa.BasicBlock, depth int)
+		visited := map[*ssa.Function]bool{}
+		legacyRegion = func(fn *ssa.Function, root *ssa.BasicBlock, depth int) {
+			inRegion := func(b *ssa.BasicBlock) bool { return root == nil || root.Dominates(b) }
+			fname := shortFn(fn)
+			var firstWordIfs []*ssa.If
+			for _, b := range fn.Blocks {
+				ifi, ok := core.LastIf(b)
+				if !ok {
+					continue
 				}
-				if len(ne.Preds) == 1 && ne.Dominates(call.Block()) {
-					guarded = true
+				bo, ok := ifi.Cond.(*ssa.BinOp)
+				if !ok || (bo.Op != token.EQL && bo.Op != token.NEQ) {
+					continue
+				}
+				if k, ok := core.ConstIntValue(bo.Y); ok && k == magicConst {
+					if ex, ok := bo.X.(*ssa.Extract); ok {
+						if call, ok := ex.Tuple.(*ssa.Call); ok && core.IsCallTo(call, readU32) {
+							if off, isConst := core.ConstIntValue(call.Call.Args[1]); isConst && off == 0 {
+								firstWordIfs = append(firstWordIfs, ifi)
+							}
+						}
+					}
 				}
 			}
-			r.Check(guarded, "GUARD", name+":legacy-read-only-for-legacy-files", c.Pos(call.Pos()), "raw read dominated by first-word != magic", "the un-checksummed raw read can be taken for a checksummed file (offset not at a chunk start or damaged magic)")
-		}
-		// nothing but the legacy read returns data on the mismatch edge
-		for _, ret := range core.Returns(readChunk) {
-			if mismatchSucc.Dominates(ret.Block()) && len(mismatchSucc.Preds) == 1 {
+			for _, ci := range core.CallsIn(fn) {
+				call, ok := ci.(*ssa.Call)
+				if !ok || !core.IsCallTo(call, osReadAt) || !inRegion(call.Block()) {
+					continue
+				}
+				guarded := false
+				for _, li := range firstWordIfs {
+					bo := li.Cond.(*ssa.BinOp)
+					ne := li.Block().Succs[1]
+					if bo.Op == token.NEQ {
+						ne = li.Block().Succs[0]
+					}
+					if len(ne.Preds) == 1 && ne.Dominates(call.Block()) {
+						guarded = true
+					}
+				}
+				r.Check(guarded, "GUARD", fname+":legacy-read-only-for-legacy-files", c.Pos(call.Pos()), "raw read dominated by first-word != magic", "the un-checksummed raw read can be taken for a checksummed file (offset not at a chunk start or damaged magic)")
+			}
+			for _, ret := range core.Returns(fn) {
+				if !inRegion(ret.Block()) {
+					continue
+				}
 				if k, isConst := core.ConstIntValue(core.RetResult(ret, 0)); isConst && k == 0 {
 					continue
 				}
 				if ex, ok := core.RetResult(ret, 0).(*ssa.Extract); ok {
-					if call, ok := ex.Tuple.(*ssa.Call); ok && core.IsCallTo(call, osReadAt) {
-						continue
+					if call, ok := ex.Tuple.(*ssa.Call); ok {
+						if core.IsCallTo(call, osReadAt) {
+							continue
+						}
+						if h := call.Call.StaticCallee(); h != nil && h.Blocks != nil && depth < 2 && core.FnPkgPath(h) == core.FnPkgPath(fn) && h != readChunk {
+							if !visited[h] {
+								visited[h] = true
+								legacyRegion(h, nil, depth+1)
+							}
+							continue
+						}
 					}
 				}
-				r.Violation("GUARD", name+":mismatch-edge-returns", c.Pos(ret.Pos()), "a return on the magic-mismatch edge reports bytes that do not come from the legacy raw read")
+				r.Violation("GUARD", fname+":mismatch-edge-returns", c.Pos(ret.Pos()), "a return on the magic-mismatch edge reports bytes that do not come from the legacy raw read")
 			}
+		}
+		if len(mismatchSucc.Preds) == 1 {
+			legacyRegion(readChunk, mismatchSucc, 0)
 		}
 	}
 
